@@ -62,6 +62,15 @@ def tool_normalised_valid(src):
     return valid_after_dedent(src) or valid_after_dedent(src.expandtabs(4))
 
 
+def bare_continuation_line(case):
+    """F-C04-21: a line that holds nothing but a backslash (a line continuation in front of a statement)."""
+    import re as _re
+    return bool(_re.search(r"(?m)^[ \t]*\\\n", case.get("src", "")))
+
+
+PREDICATES = {"bare_continuation_line": bare_continuation_line}
+
+
 def evaluate(case, guard=None):
     src = case["src"]
     kw = progcheck.fmt_opts(case.get("opts"))
